@@ -14,9 +14,8 @@
  */
 #define _GNU_SOURCE
 #include "polyseed.h"
-#include "lang.h"
-#include "gf.h"
-#include "storage.h"
+#include "internals.h"      /* optional direct observations; everything else goes through the public header */
+#define DRV_LANG_SIZE 2048
 
 #include <errno.h>
 #include <inttypes.h>
@@ -64,6 +63,8 @@ static void emit_limbs(const char* key, uint64_t v) {
 }
 
 static void eol(void) { fputs("}\n", out); ++n_lines; }
+/* an optional direct observation of an internal that the tree under test does not offer (any more) */
+static void unavailable(const char* what) { fprintf(out, "{\"e\":\"Unavailable\",\"what\":\"%s\"", what); eol(); }
 
 /* ------------------------------------------------------------------------------------------- */
 /* real libc behind --wrap                                                                     */
@@ -530,7 +531,7 @@ static void needles_windows(const char* kind, const uint8_t* p, size_t n, size_t
 #ifndef IDXWIN
 #define IDXWIN 4
 #endif
-static void needles_indices(const gf_elem* c, int n) {
+static void needles_indices(const uint16_t* c, int n) {
     /* any 4 consecutive indices stored as 2-, 4- or 8-byte little-endian integers */
     for (int i = 0; i + IDXWIN <= n; ++i) {
         uint16_t a16[IDXWIN]; uint32_t a32[IDXWIN]; uint64_t a64[IDXWIN];
@@ -544,26 +545,56 @@ static void needles_indices(const gf_elem* c, int n) {
     }
 }
 
-static void needles_seed(const polyseed_data* s, polyseed_coin coin) {
-#ifdef DRV_SO
-    (void)s; (void)coin;
+/* The seed's secret and its 16 word indices, from what the public API shows (the stored image): a probe call
+   like the ones of the projection - made on the ordinary stack, its dependency events discarded.  The
+   published layout: 15 data words of 10 secret bits (MSB first) + 1 bit of (features << 10 | birthday). */
+static bool seed_indices(const polyseed_data* s, uint8_t secret[19], uint16_t idx[16]) {
+#ifdef DRV_MT
+    (void)s; (void)secret; (void)idx;
+    return false;
 #else
-    needles_windows("secret", s->secret, 19, 8);
-    gf_poly poly = { 0 };
-    poly.coeff[0] = s->checksum;
-    polyseed_data_to_poly(s, &poly);
-    needles_indices(poly.coeff, POLYSEED_NUM_WORDS);
-    if (coin) { poly.coeff[1] ^= coin; needles_indices(poly.coeff, 5); }
+    uint8_t img[POLYSEED_SIZE];
+    int save_nev = nev, save_in = in_api;
+    in_api = 0;
+    polyseed_store(s, img);
+    nev = save_nev; in_api = save_in;
+    if (memcmp(img, "POLYSEED", 8) != 0) return false;
+    memcpy(secret, img + 10, 19);
+    unsigned extra = (unsigned)img[8] | ((unsigned)img[9] << 8);
+    idx[0] = (uint16_t)(((unsigned)img[30] | ((unsigned)img[31] << 8)) & 0x7ff);
+    unsigned bitpos = 0;
+    for (int i = 0; i < 15; ++i) {
+        unsigned v = 0;
+        for (int b = 0; b < 10; ++b, ++bitpos) {
+            /* 150 secret bits: 18 whole bytes, then the low 6 bits of the last one */
+            unsigned byte = bitpos / 8, off = bitpos % 8, bit;
+            if (byte < 18) bit = (secret[byte] >> (7 - off)) & 1;
+            else bit = (secret[18] >> (5 - off)) & 1;
+            v = (v << 1) | bit;
+        }
+        v = (v << 1) | ((extra >> (14 - i)) & 1);
+        idx[1 + i] = (uint16_t)v;
+    }
+    return true;
 #endif
 }
 
+static void needles_seed(const polyseed_data* s, polyseed_coin coin) {
+    uint8_t secret[19]; uint16_t idx[16];
+    if (!seed_indices(s, secret, idx)) return;
+    needles_windows("secret", secret, 19, 8);
+    needles_indices(idx, POLYSEED_NUM_WORDS);
+    if (coin) { idx[1] ^= (uint16_t)coin; needles_indices(idx, 5); }
+}
+
 /* the phrase in pointer form: consecutive pointers to the words (or to their table slots) determine the indices */
-static void needles_pointers(const polyseed_lang* l, const gf_elem* c, int n) {
+static void needles_pointers(const polyseed_lang* l, const uint16_t* c, int n) {
 #ifndef DRV_SO
+    if (!drv_have_lang) return;
     for (int i = 0; i + 3 <= n; ++i) {
         const char* w[3]; const char* const* slot[3];
         if (c[i] == c[i + 1] || c[i + 1] == c[i + 2] || c[i] == c[i + 2]) continue;
-        for (int j = 0; j < 3; ++j) { w[j] = l->words[c[i + j] % POLYSEED_LANG_SIZE]; slot[j] = &l->words[c[i + j] % POLYSEED_LANG_SIZE]; }
+        for (int j = 0; j < 3; ++j) { w[j] = drv_lang_word(l, c[i + j] % DRV_LANG_SIZE); slot[j] = drv_lang_slot(l, c[i + j] % DRV_LANG_SIZE); }
         needle_add("ptr", w, sizeof w); needle_add("ptr", slot, sizeof slot);
     }
 #else
@@ -757,7 +788,7 @@ static void call_body(void) {
     case OP_ISENC: C.reti = polyseed_is_encrypted(C.seed); break;
     case OP_NUMLANGS: C.reti = polyseed_get_num_langs(); break;
 #ifndef DRV_SO
-    case OP_FIND: C.reti = polyseed_lang_find_word(C.lang, C.str); break;
+    case OP_FIND: C.reti = drv_find_word(C.lang, C.str); break;
 #endif
     }
 }
@@ -925,7 +956,7 @@ static void emit_start(void) {
 #ifdef DRV_SO
         0,
 #else
-        (int)sizeof(polyseed_data),
+        drv_datasize(),
 #endif
 #ifdef DRV_NO_STACKSWITCH
         "false",
@@ -1007,9 +1038,12 @@ static void run_script(FILE* in) {
                 fprintf(out, "%s{\"id\":\"%s\"", i ? "," : "", lang_id(l));
                 emit_bytes("en", (const uint8_t*)en, strlen(en)); emit_bytes("nat", (const uint8_t*)nat, strlen(nat));
 #ifndef DRV_SO
-                emit_bytes("sep", (const uint8_t*)l->separator, strlen(l->separator));
-                fprintf(out, ",\"sorted\":%s,\"prefix\":%s,\"accents\":%s,\"compose\":%s}", l->is_sorted ? "true" : "false",
-                    l->has_prefix ? "true" : "false", l->has_accents ? "true" : "false", l->compose ? "true" : "false");
+                if (drv_have_lang) {
+                    int fl = drv_lang_flags(l);
+                    emit_bytes("sep", (const uint8_t*)drv_lang_separator(l), strlen(drv_lang_separator(l)));
+                    fprintf(out, ",\"sorted\":%s,\"prefix\":%s,\"accents\":%s,\"compose\":%s}", (fl & 1) ? "true" : "false",
+                        (fl & 2) ? "true" : "false", (fl & 4) ? "true" : "false", (fl & 8) ? "true" : "false");
+                } else fputc('}', out);
 #else
                 fputc('}', out);
 #endif
@@ -1020,10 +1054,11 @@ static void run_script(FILE* in) {
         else if (!strcmp(op, "listwords")) {
             /* direct observation of the word table: one event per CHUNK words */
             const polyseed_lang* l = lang_by_id(tok[1]);
-            if (l) for (int i = 0; i < POLYSEED_LANG_SIZE; i += 64) {
+            if (!drv_have_lang) { unavailable("word-table"); continue; }
+            if (l) for (int i = 0; i < DRV_LANG_SIZE; i += 64) {
                 fprintf(out, "{\"e\":\"Words\",\"lang\":\"%s\",\"from\":%d,\"w\":[", tok[1], i);
                 for (int j = i; j < i + 64; ++j) {
-                    const uint8_t* w = (const uint8_t*)l->words[j];
+                    const uint8_t* w = (const uint8_t*)drv_lang_word(l, j);
                     fprintf(out, "%s[", j > i ? "," : "");
                     for (size_t k = 0; w[k]; ++k) fprintf(out, k ? ",%u" : "%u", w[k]);
                     fputc(']', out);
@@ -1034,6 +1069,7 @@ static void run_script(FILE* in) {
         else if (!strcmp(op, "find")) {
             const polyseed_lang* l = lang_by_id(tok[1]);
             size_t n = unhex(tok[2], tmp, tmp_cap - 1); tmp[n] = 0;
+            if (!drv_have_find) { unavailable("word-lookup"); continue; }
             if (l) {
                 C.op = OP_FIND; C.lang = l; C.str = (const char*)guard_place(tmp, n + 1);
                 api_call(false); nev = 0;
@@ -1046,10 +1082,11 @@ static void run_script(FILE* in) {
                characters through the library's word lookup; every ACCEPTED token is logged as a Find event (the
                specification decides whether the rule allows it), rejected ones are only counted */
             const polyseed_lang* l = lang_by_id(tok[1]);
+            if (!drv_have_find || !drv_have_lang) { unavailable("word-lookup-sweep"); continue; }
             if (l) {
                 static uint8_t chars[4096][5]; int nchars = 0;
-                for (int j = 0; j < POLYSEED_LANG_SIZE; ++j) {
-                    const uint8_t* w = (const uint8_t*)l->words[j];
+                for (int j = 0; j < DRV_LANG_SIZE; ++j) {
+                    const uint8_t* w = (const uint8_t*)drv_lang_word(l, j);
                     for (size_t k = 0; w[k]; ) {
                         size_t cl = w[k] < 0x80 ? 1 : (w[k] >> 5) == 6 ? 2 : (w[k] >> 4) == 14 ? 3 : 4, q = 0;
                         uint8_t c[5] = {0};
@@ -1072,7 +1109,7 @@ static void run_script(FILE* in) {
                         for (int b = 0; c[b]; ++b) t[n++] = (char)c[b];
                     }
                     t[n] = 0;
-                    int ret = polyseed_lang_find_word(l, t);
+                    int ret = drv_find_word(l, t);
                     if (ret >= 0) {
                         ++hits;
                         fprintf(out, "{\"e\":\"Find\",\"lang\":\"%s\",\"ret\":%d", tok[1], ret);
@@ -1083,15 +1120,17 @@ static void run_script(FILE* in) {
             }
         }
         else if (!strcmp(op, "mul2all")) {
+            if (!drv_have_mul2) { unavailable("doubling"); continue; }
             fprintf(out, "{\"e\":\"Mul2\",\"v\":[");
-            for (unsigned x = 0; x < 2048; ++x) fprintf(out, x ? ",%u" : "%u", (unsigned)gf_elem_mul2(x));
+            for (unsigned x = 0; x < 2048; ++x) fprintf(out, x ? ",%u" : "%u", drv_mul2(x));
             fputc(']', out); eol();
         }
         else if (!strcmp(op, "polyeval")) {
-            gf_poly poly; for (int i = 0; i < 16; ++i) poly.coeff[i] = (gf_elem)atoi(tok[1 + i]) ;
+            unsigned pc[16]; for (int i = 0; i < 16; ++i) pc[i] = (unsigned)atoi(tok[1 + i]) & 0xffff;
+            if (!drv_have_polyeval) { unavailable("polynomial-evaluation"); continue; }
             fprintf(out, "{\"e\":\"Eval\",\"c\":[");
-            for (int i = 0; i < 16; ++i) fprintf(out, i ? ",%u" : "%u", (unsigned)poly.coeff[i]);
-            fprintf(out, "],\"ret\":%u", (unsigned)gf_poly_eval(&poly)); eol();
+            for (int i = 0; i < 16; ++i) fprintf(out, i ? ",%u" : "%u", pc[i]);
+            fprintf(out, "],\"ret\":%u", drv_polyeval(pc)); eol();
         }
 #endif
         else if (!strcmp(op, "create")) {
@@ -1125,8 +1164,8 @@ static void run_script(FILE* in) {
             memset(g_str_out_area, 0xEE, sizeof g_str_out_area);
             needles_seed(C.seed, C.coin);
 #ifndef DRV_SO
-            { gf_poly pp = { 0 }; pp.coeff[0] = C.seed->checksum; polyseed_data_to_poly(C.seed, &pp); pp.coeff[1] ^= C.coin;
-              needles_pointers(l, pp.coeff, POLYSEED_NUM_WORDS); }
+            { uint8_t sec[19]; uint16_t pi[16];
+              if (seed_indices(C.seed, sec, pi)) { pi[1] ^= (uint16_t)C.coin; needles_pointers(l, pi, POLYSEED_NUM_WORDS); } }
 #endif
             api_call(true);
             /* the output must be terminated inside the caller's buffer and must not spill over */
@@ -1174,8 +1213,8 @@ static void run_script(FILE* in) {
                 needles_seed(C.seed_out, C.coin);
 #ifndef DRV_SO
                 { const polyseed_lang* dl = ex ? C.lang : C.lang_out;
-                  if (dl) { gf_poly pp = { 0 }; pp.coeff[0] = C.seed_out->checksum; polyseed_data_to_poly(C.seed_out, &pp); pp.coeff[1] ^= C.coin;
-                            needles_pointers(dl, pp.coeff, POLYSEED_NUM_WORDS); } }
+                  uint8_t sec[19]; uint16_t pi[16];
+                  if (dl && seed_indices(C.seed_out, sec, pi)) { pi[1] ^= (uint16_t)C.coin; needles_pointers(dl, pi, POLYSEED_NUM_WORDS); } }
 #endif
                 scan_stack();
             }
